@@ -52,51 +52,61 @@ contract(Q + 'IdManager.prepare', 'C03', self_class='IdManager', label='IdManage
              'blocks': f'seq_eq({EL}.names, {FN} + {XN} + self.random_variables.names + self.draws.names + self.variables.names)',
              'unique_index_of_name': f'forall(lambda q: {EL}.indices[{EL}.names[q]] == q, 0, len({EL}.names))',
              'name_used_once': f'forall(lambda a: forall(lambda b: implies(a != b, {EL}.names[a] != {EL}.names[b]), 0, len({EL}.names)), 0, len({EL}.names))',
-             'unique_index_of_free_parameter': f'forall(lambda q: {EL}.indices[{FN}[q]] == q, 0, len({FN}))',
-             'free_block_first': f'forall(lambda q: {EL}.names[q] == {FN}[q], 0, len({FN}))',
-             'fixed_block_second': f'forall(lambda q: {EL}.names[len({FN}) + q] == {XN}[q], 0, len({XN}))',
          })
 
 
 def lemmas():
     """Pure-logic consequences of the proved postconditions of prepare (no heap, no program): the VC of prepare carries
-    ~130 quantified hypotheses and the solvers need 40-60 s (or give up) on these two derived clauses there, so they are
-    derived here from the four discharged clauses they follow from."""
+    ~130 quantified hypotheses and the solvers need 5-60 s (or give up, depending on the machine load) on these derived
+    clauses there, so they are derived here from the three discharged clauses they follow from (blocks,
+    unique_index_of_name, name_used_once).  Each goal is refuted at Skolem constants with the hypotheses instantiated at
+    the positions the argument uses (q, nf + q): instances of proved clauses, hence sound."""
+    import itertools
     import time
     import z3
     from pyvc.driver import Extra
     out = []
     nf, nx, n = z3.Ints('nf nx n')
-    EN, FNa, XNa = (z3.Array(k, z3.IntSort(), z3.IntSort()) for k in ('EN', 'FN', 'XN'))
+    EN, FNa, XNa, REST = (z3.Array(k, z3.IntSort(), z3.IntSort()) for k in ('EN', 'FN', 'XN', 'REST'))
     IDX = z3.Function('IDX', z3.IntSort(), z3.IntSort())
-    q, a, b = z3.Ints('q a b')
-    hyps = [nf >= 0, nx >= 0, n >= nf + nx,
-            z3.ForAll([q], z3.Implies(z3.And(0 <= q, q < nf), EN[q] == FNa[q])),            # free_block_first
-            z3.ForAll([q], z3.Implies(z3.And(0 <= q, q < nx), EN[nf + q] == XNa[q])),       # fixed_block_second
-            z3.ForAll([q], z3.Implies(z3.And(0 <= q, q < n), IDX(EN[q]) == q)),             # unique_index_of_name
-            z3.ForAll([a, b], z3.Implies(z3.And(0 <= a, a < n, 0 <= b, b < n, a != b), EN[a] != EN[b]))]   # name_used_once
+
+    def blocks(q):            # names == free names + fixed names + (random variables + draws + variables)
+        return z3.Implies(z3.And(0 <= q, q < n), EN[q] == z3.If(q < nf, FNa[q], z3.If(q < nf + nx, XNa[q - nf], REST[q - nf - nx])))
+
+    def unique_index_of_name(q):
+        return z3.Implies(z3.And(0 <= q, q < n), IDX(EN[q]) == q)
+
+    def name_used_once(a, b):
+        return z3.Implies(z3.And(0 <= a, a < n, 0 <= b, b < n, a != b), EN[a] != EN[b])
+
+    base = [nf >= 0, nx >= 0, n >= nf + nx]
+    q0, a0, b0 = z3.Ints('q0 a0 b0')
     goals = {
-        'unique-index-of-fixed-parameter-is-nfree-plus-rank':
-            z3.ForAll([q], z3.Implies(z3.And(0 <= q, q < nx), IDX(XNa[q]) == nf + q)),
-        'free-and-fixed-names-disjoint':
-            z3.ForAll([a, b], z3.Implies(z3.And(0 <= a, a < nf, 0 <= b, b < nx), FNa[a] != XNa[b])),
+        'unique-index-of-free-parameter-is-its-rank': (z3.Implies(z3.And(0 <= q0, q0 < nf), IDX(FNa[q0]) == q0), [q0]),
+        'unique-index-of-fixed-parameter-is-nfree-plus-rank': (z3.Implies(z3.And(0 <= q0, q0 < nx), IDX(XNa[q0]) == nf + q0), [nf + q0]),
+        'free-and-fixed-names-disjoint': (z3.Implies(z3.And(0 <= a0, a0 < nf, 0 <= b0, b0 < nx), FNa[a0] != XNa[b0]), [a0, nf + b0]),
     }
-    for name, g in goals.items():
+    for name, (g, terms) in goals.items():
         t0 = time.time()
         s = z3.Solver()
         s.set('timeout', 20000)
-        s.add(*hyps)
+        s.add(*base)
+        for t in terms:
+            s.add(blocks(t), unique_index_of_name(t))
+        for t, u in itertools.permutations(terms, 2):
+            s.add(name_used_once(t, u))
         s.add(z3.Not(g))
         r = str(s.check())
         out.append(Extra(f'C03:lemma:prepare:{name}', 'lemma', {'unsat': 'discharged', 'sat': 'failed'}.get(r, 'unknown'),
                          f'z3-{z3.get_version_string()}', round(time.time() - t0, 3),
-                         'from free_block_first, fixed_block_second, unique_index_of_name, name_used_once (postconditions of IdManager.prepare)'))
+                         'from blocks, unique_index_of_name, name_used_once (postconditions of IdManager.prepare)'))
     # sanity of the lemma itself: the hypotheses are satisfiable (not a vacuous derivation)
     t0 = time.time()
     s = z3.Solver()
     s.set('timeout', 20000)
-    s.add(*hyps, nf == 2, nx == 1, n == 4)
+    q, a, b = z3.Ints('q a b')
+    s.add(*base, nf == 2, nx == 1, n == 4, z3.ForAll([q], blocks(q)), z3.ForAll([q], unique_index_of_name(q)), z3.ForAll([a, b], name_used_once(a, b)))
     r = str(s.check())
     out.append(Extra('C03:lemma:prepare:hypotheses-satisfiable', 'lemma', 'discharged' if r == 'sat' else 'failed',
-                     f'z3-{z3.get_version_string()}', round(time.time() - t0, 3), 'vacuity guard of the two derived clauses'))
+                     f'z3-{z3.get_version_string()}', round(time.time() - t0, 3), 'vacuity guard of the derived clauses'))
     return out
